@@ -555,11 +555,20 @@ def run_contract(table, registry, contract, feas_timeout_ms=2000, max_paths=400)
         for name, shape in contract.inputs.items():
             vals[name] = ib.build(name, shape)
         run.ghost['_input_values'] = vals
+        if contract.crash_invariant or getattr(contract, 'uses_fs', False) or contract.fs_faults:
+            from . import fsmodel
+            fsmodel.fs_of(ex)
+            if contract.fs_faults:
+                run.ghost['fs_faults'] = True
         for ax in contract.assume:
             r = call_clause(ex, cm, ax, vals)
             run.assume(_b(ex, r))
         for rq in contract.requires:
-            r = call_clause(ex, cm, rq, vals)
+            rv = dict(vals)
+            if 'fs' in run.ghost:
+                rv['fs'] = run.ghost['fs']
+                rv['fs0'] = run.ghost['fs0']
+            r = call_clause(ex, cm, rq, rv)
             run.assume(_b(ex, r))
         olds = {f'old_{n}': v for n, v in snapshot_heap(ex, vals).items()}
         run.ghost['_olds'] = olds
@@ -579,12 +588,31 @@ def run_contract(table, registry, contract, feas_timeout_ms=2000, max_paths=400)
             outcome = {'kind': 'return', 'value': v}
         except RaiseEx as r:
             outcome = {'kind': 'raise', 'exc': r.exc}
+        if 'fs' in run.ghost:
+            from . import fsmodel
+            fsmodel.close_all(ex)
         # clauses
         avail = dict(vals)
         avail.update(olds)
         avail['trace'] = TraceView(run.trace)
         if 'fs' in run.ghost:
             avail['fs'] = run.ghost['fs']
+            avail['fs0'] = run.ghost['fs0']
+        # crash invariants: one obligation per ghost-FS event of the path (hypotheses: the path condition up to that event)
+        for ciname, cifn in contract.crash_invariant.items():
+            for (label, spc, snap, stags) in run.ghost.get('fs_snaps', []):
+                saved_pc = run.pc
+                run.pc = list(spc)
+                try:
+                    a2 = dict(vals)
+                    a2.update(olds)
+                    a2['fs'] = snap
+                    a2['fs0'] = run.ghost['fs0']
+                    r = call_clause(ex, cm, cifn, a2)
+                    ob = run.oblige(f'{contract.id}.{ciname}@{label}', 'crash', _b(ex, r), {'clause': cifn, 'cname': ciname, 'event': label})
+                    ob.meta['path_tags'] = list(stags) + [f'crash-after:{label.split("#")[0]}']
+                finally:
+                    run.pc = saved_pc
         if outcome['kind'] == 'return':
             avail['result'] = outcome['value']
             avail['raised'] = None
@@ -629,7 +657,7 @@ def run_contract(table, registry, contract, feas_timeout_ms=2000, max_paths=400)
         res.paths.append({'kind': p.kind, 'tags': p.tags})
         for ob in p.run.obligations:
             ob.meta['contract'] = contract.id
-            ob.meta['path_tags'] = list(p.run.tags)
+            ob.meta.setdefault('path_tags', list(p.run.tags))
             res.obligations.append(ob)
         res.assumed |= p.run.assumed
     res.functions = set(ex.called) | {contract.target}
